@@ -307,7 +307,17 @@ class Run:
         ops = self.sc["ops"]
         for i, op in enumerate(ops):
             fn = getattr(self, "op_" + op[0])
-            fn(op)
+            try:
+                fn(op)
+            except Mismatch as m:
+                # C03 is "the workspace equals the model after any history": an operation whose outcome or
+                # disk effect differs from the model is a C03 divergence too, whatever detail oracle saw it
+                # first (handle accessors, pickling and the dependency's assignment shortcuts stay C04's)
+                if self.prop == "C03" and m.prop == "C04" and not m.vclass.startswith(
+                        ("C04:handle", "C04:pickle", "C04:assign")):
+                    raise Mismatch("C03", "C03:operation-diverges-from-model:" + m.vclass.split(":", 1)[1],
+                                   m.msg, "C03:operation-diverges-from-model:" + m.fp.split(":", 1)[1])
+                raise
             self.executed = i + 1
             self.grams.append(op[0])
             if len(self.grams) >= 3:
@@ -1257,7 +1267,10 @@ class Run:
                                    f"after {op}: check() reports {bad} on a workspace the model calls healthy")
             if self.cache_written[pi]:
                 self.probe("stale_cache_obs")
-        self._coherence(op)
+        if self.prop != "C03":
+            # handle accessors are C04's (and C02's) business; a C03 run keeps going and judges the
+            # workspace, which is where an incoherent handle eventually shows
+            self._coherence(op)
 
     def _fp_ids(self, op, raw_ids, model_ids):
         hd = None
